@@ -97,6 +97,19 @@ class CheckC16(core.Check):
                 seq.append((lab, "w", d, n, sd, ln))
                 lab = c.op("st_read", r, n=n, msg="$x%d_%d" % (d, n), buf=rnd.choice([BIG, ln, ln + 16]))
                 seq.append((lab, "r", d, n, sd, ln))
+        # pool of (direction, nonce, length, seed) combinations written sequentially twice (repetition must give the
+        # same bytes); the concurrent writers below draw from this pool, so each has a sequential reference value
+        pool = []
+        for i in range(6 if small else 16):
+            d = rnd.choice(dirs)
+            n = rnd.choice(NONCES + [rnd.getrandbits(64) % MAXN])
+            ln = rnd.choice([0, 1, 33, 300] if not small else [0, 5])
+            pool.append((d, n, ln, "c%d" % i))
+        for rep in range(2):
+            for (d, n, ln, sd) in pool:
+                w = "A" if d == 0 else "B"
+                lab = c.op("st_write", w, n=n, pay="gen:%d:%s" % (ln, sd), buf=BIG)
+                seq.append((lab, "w", d, n, sd, ln))
         # (3) concurrent block on the shared objects
         nthr = threads or rnd.choice([2, 4, 8, 16])
         per = 4 if small else rnd.choice([50, 200, 600])
@@ -109,9 +122,8 @@ class CheckC16(core.Check):
                 w, r = ("A", "B") if d == 0 else ("B", "A")
                 kind = rnd.choice(["w", "r", "rt", "rt"])
                 if kind == "w":
-                    n = rnd.choice(NONCES + [rnd.getrandbits(64) % MAXN])
-                    ln = rnd.choice([0, 1, 33, 300] if not small else [0, 5])
-                    ops.append("w,%s,%d,%d,c%d.%d" % (w, n, ln, t, i))
+                    pd, n, ln, sd = rnd.choice(pool)
+                    ops.append("w,%s,%d,%d,%s" % ("A" if pd == 0 else "B", n, ln, sd))
                 elif kind == "r":
                     n = rnd.randrange(T)
                     ops.append("r,%s,%d,tw%d_%d,%d" % (r, n, d, n, 7 + n))
@@ -159,6 +171,8 @@ class CheckC16(core.Check):
             b, _, _ = decode_out(e.kv.get("out"))
             twin_msgs[(d, n)] = b
         ooo = 0
+        ref = {}
+        nonconf = False
         for lab, kind, d, n, sd, ln in case.meta["seq"]:
             e = by.get(str(lab))
             if e is None or e.skipped:
@@ -169,19 +183,27 @@ class CheckC16(core.Check):
                 return r
             pay = gen_bytes(sd, ln)
             if kind == "w":
-                exp = prims.aead_encrypt(ci, ks[d], n, b"", pay)
-                ok = e.ok
-                if ok:
-                    b, l2, sh = decode_out(e.kv.get("out"))
-                    ok = (b == exp) if b is not None else (l2 == len(exp) and hashlib.sha256(exp).digest() == sh)
-                if not ok:
-                    r.viol("C16|write|%s" % ("twin" if sd.startswith("tw") else "model"), "%s: st_write(nonce %d, %d bytes) is not E(k, n, payload) (%s)" % (tag, n, ln, e.res))
+                if not e.ok:
+                    r.viol("C16|write-failed", "%s: st_write(nonce %d, %d bytes) failed: %s" % (tag, n, ln, e.res))
                     return r
+                b, l2, sh = decode_out(e.kv.get("out"))
+                got = dig(b) if b is not None else "%d:%s" % (l2, sh[:8].hex())
+                # purity: the same (direction, nonce, payload) always yields the same bytes
+                k0 = (d, n, sd, ln)
+                if k0 in ref and ref[k0] != got:
+                    r.viol("C16|impure-write", "%s: st_write(nonce %d, same payload) returned different bytes on repetition" % (tag, n))
+                    return r
+                ref.setdefault(k0, got)
                 if sd.startswith("tw"):
-                    if twin_msgs.get((d, n)) != exp:
+                    tm = twin_msgs.get((d, n))
+                    if tm is None or dig(tm) != got:
                         r.viol("C16|twin", "%s: message written under nonce %d differs from the %d-th message of the stateful twin" % (tag, n, n))
                         return r
                     r.stats["twin_messages_compared"] += 1
+                # conformance to the model's AEAD is C01/C18's predicate: recorded, not judged here
+                if got != dig(prims.aead_encrypt(ci, ks[d], n, b"", pay)):
+                    r.foreign_dev("C01/C18", "stateless message differs from the model's AEAD output")
+                    nonconf = True
             else:
                 ok = e.ok
                 if ok:
@@ -213,9 +235,12 @@ class CheckC16(core.Check):
             if op[0] == "w":
                 _, w, n, ln, sd = op
                 d = 0 if w == "A" else 1
-                exp = prims.aead_encrypt(ci, ks[d], int(n), b"", gen_bytes(sd, int(ln)))
-                if not res.startswith("ok") or kv.get("outd") != dig(exp):
-                    r.viol("C16|conc-write", "%s: concurrent st_write(nonce %s) returned %s / %s, expected the pure-function value (thread %s of %d)" % (tag, n, res, kv.get("outd"), kv["thr"], case.info["nthr"]))
+                exp = ref.get((d, int(n), sd, int(ln)))
+                if exp is None:
+                    r.inconclusive.append("case %s: no sequential reference for %s" % (case.id, kv["op"]))
+                    return r
+                if not res.startswith("ok") or kv.get("outd") != exp:
+                    r.viol("C16|conc-write", "%s: concurrent st_write(nonce %s) returned %s / %s, the sequential value of the same call is %s (thread %s of %d)" % (tag, n, res, kv.get("outd"), exp, kv["thr"], case.info["nthr"]))
                     return r
             elif op[0] == "r":
                 _, rp, n, reg, bl = op
@@ -229,7 +254,7 @@ class CheckC16(core.Check):
                 d = 0 if w == "A" else 1
                 pay = gen_bytes(sd, int(ln))
                 exp = prims.aead_encrypt(ci, ks[d], int(n), b"", pay)
-                if not res.startswith("ok") or kv.get("outd") != dig(exp) or not kv.get("rres", "").startswith("ok") or kv.get("routd") != dig(pay):
+                if (not nonconf and kv.get("outd") != dig(exp)) or not res.startswith("ok") or not kv.get("rres", "").startswith("ok") or kv.get("routd") != dig(pay):
                     r.viol("C16|conc-roundtrip", "%s: concurrent write/read round trip under nonce %s gave %s / %s (thread %s of %d)" % (tag, n, res, kv.get("rres"), kv["thr"], case.info["nthr"]))
                     return r
             nconc += 1
